@@ -213,15 +213,27 @@ def mismatch_diffs(m):
                 return [('query.outcome', 'err', rec['outcome'])]
             if rec['outcome'] != 'ok':
                 return [('query.outcome', 'ok', rec['outcome'] + ':' + str(g.get('error', ''))[:100])]
-            es = sorted(json.dumps(x) for x in e.get('rows', []))
-            bs = [json.dumps(x) for x in g.get('base', [])]
+            es = sorted(json.dumps(x, sort_keys=True) for x in e.get('rows', []))
+            bs = [json.dumps(x, sort_keys=True) for x in g.get('base', [])]
             d = []
             if len(set(bs)) != len(bs):
                 d.append(('query.duplicates', 'each row once', 'rows repeated'))
+            kinds = e.get('kinds') or []
+
+            def kinds_of(rows):
+                """target kinds of the annotations in first position of the rows (discriminates findings)"""
+                ks = set()
+                for x in rows:
+                    it = json.loads(x)[0]
+                    if it.get('t') == 'ann' and 0 < it['a'] <= len(kinds):
+                        ks.add(kinds[it['a'] - 1] or 'dead')
+                return ('_' + '_'.join(sorted(ks))) if ks else ''
             if set(bs) - set(es):
-                d.append(('query.extra', [], [json.loads(x) for x in sorted(set(bs) - set(es))][:4]))
+                extra = sorted(set(bs) - set(es))
+                d.append(('query.extra' + kinds_of(extra), [], [json.loads(x) for x in extra][:4]))
             if set(es) - set(bs):
-                d.append(('query.missing', [json.loads(x) for x in sorted(set(es) - set(bs))][:4], []))
+                missing = sorted(set(es) - set(bs))
+                d.append(('query.missing' + kinds_of(missing), [json.loads(x) for x in missing][:4], []))
             if not d:
                 d.append(('query.limit', 'slice of the unlimited result', dict(rows=g.get('rows'), base=g.get('base'))))
             return d
